@@ -486,6 +486,32 @@ theorem quadratic_multi_knapsack_feasible_iff (values weights : List Rat) (profi
   unfold GCqm.feasible
   rw [hc]
 
+/-! ## `quadratic_assignment(distance_matrix, flow_matrix)` (with the repair of D60: reverse orientation uses `D[l][j]`) -/
+
+/-- feasible ⇔ every facility at exactly one location and every location holding exactly one facility -/
+theorem quadratic_assignment_feasible_iff (D F : List (List Rat)) (q : GCqm) (h : quadraticAssignment D F = some q) (x : Label → Rat) :
+    q.feasible x ↔
+      (∀ i ∈ List.range D.length, rangeSum x (xIJ i) (List.range D.length) = 1)
+      ∧ (∀ j ∈ List.range D.length, rangeSum x (fun i => xIJ i j) (List.range D.length) = 1) :=
+  quadraticAssignment_feasible D F q h x
+
+/-- **objective = quadratic-assignment cost**: at the 0/1 sample placing facility `i` at location `π i` (any `π` into
+    the locations; for a feasible sample `π` is a permutation) the objective is
+    `Σ_{i<k} (F[i][k]·D[π i][π k] + F[k][i]·D[π k][π i])`, i.e. `Σ_{i≠k} flow[i][k]·distance[π i][π k]` over unordered
+    pairs of facilities — for every size, symmetric or asymmetric matrices -/
+theorem quadratic_assignment_objective (D F : List (List Rat)) (q : GCqm) (h : quadraticAssignment D F = some q)
+    (π : Nat → Nat) (hπ : ∀ i, i < D.length → π i < D.length) (x : Label → Rat) (hx : assignSample π x D.length) :
+    evalBag x q.obj
+      = nsum (fun i => nsum (fun k => if i < k then
+            matGet F i k * matGet D (π i) (π k) + matGet F k i * matGet D (π k) (π i) else 0) (List.range D.length)) (List.range D.length) :=
+  quadraticAssignment_obj D F q h π hπ x hx
+
+theorem quadratic_assignment_refuses_iff (D F : List (List Rat)) :
+    quadraticAssignment D F = none ↔ (isSquare D.length D && isSquare D.length F) = false := by
+  unfold quadraticAssignment
+  simp only
+  cases hD : isSquare D.length D <;> cases hF : isSquare D.length F <;> simp
+
 /-! ## kMC-SAT (`random_kmcsat`, `random_nae3sat`, `random_2in4sat`): the model as a function of the drawn clauses -/
 
 /-- the energy is the sum of the clause energies (the variables themselves carry no bias) -/
@@ -583,6 +609,7 @@ example : (mulCircuit 2 2).map List.length = some 6 := by decide +kernel
 example : Gen.combinations [.int 0, .int 1, .int 2] 1 1 .binary ≠ none := by decide +kernel
 example : (quadraticKnapsack [1, 2] [1, 1] [[0, 3], [3, 0]] 1).map (fun q => q.obj.length) = some 5 := by decide +kernel
 example : (kmcsat [.int 0, .int 1, .int 2] 3 [[(0, 1), (2, -1), (1, 1)]]).map List.length = some 6 := by decide +kernel
+example : (quadraticAssignment [[0, 1], [2, 0]] [[0, 3], [5, 0]]).map (fun q => q.cons.length) = some 4 := by decide +kernel
 example : (magicSquare 2 2).map (fun q => q.cons.length) = some 7 := by decide +kernel
 
 end C17
